@@ -245,3 +245,35 @@ func C14UpdateRace() {
 	sym.Assert(events(1) <= 1, "leaving-subscriber-event-count")
 	sym.Reach("update-race-done")
 }
+
+// C14Resubscribe: a client subscribes to a property, cancels, subscribes again: every accepted
+// write made while it is subscribed still reaches it exactly once (client writes and service-side
+// updates, including an update that repeats the current value).
+func C14Resubscribe() {
+	o, proxy, _ := zzEmitterSetup()
+	obj := proxyObject{proxy}
+	for round := 0; round < 3; round++ {
+		cancel, events, err := proxy.SubscribeID(300)
+		sym.Assert(err == nil, "subscribe-ok")
+		x := sym.I32("value")
+		if sym.Bool("service-side") {
+			sym.Assert(o.front.UpdateProperty(300, "i", zzLE32(uint32(x))) == nil, "update-ok")
+		} else {
+			sym.Assert(obj.SetProperty(value.String("level"), value.Int(x)) == nil, "set-ok")
+		}
+		sym.Quiesce()
+		got, _ := zzDrainNow(events)
+		sym.Assert(len(got) == 1, "accepted-write-event-count")
+		if len(got) == 1 {
+			sym.Assert(sym.EqBytes(got[0], zzLE32(uint32(x))), "event-carries-new-value")
+		}
+		// the same value again, from the service: still an accepted write
+		sym.Assert(o.front.UpdateProperty(300, "i", zzLE32(uint32(x))) == nil, "repeat-update-ok")
+		sym.Quiesce()
+		got, _ = zzDrainNow(events)
+		sym.Assert(len(got) == 1, "repeated-value-event-count")
+		cancel()
+		sym.Quiesce()
+	}
+	sym.Reach("resubscribe-done")
+}
